@@ -23,13 +23,15 @@ pub fn gen_poly(rng: &mut Rng) -> Option<Case> {
   let mut cands = Vec::new();
   for d in 0..30u8 { let q = rmax * nside(d) as f64; if q >= 0.02 && q <= 40.0 { cands.push(d); } }
   if cands.is_empty() { return None; }
-  let depth = *rng.pick(&cands);
+  let mut depth = *rng.pick(&cands);
   let convex = rng.coin();
   let (mut lon, mut lat) = rng.sphere();
   if rng.below(4) == 0 { lon = (rng.below(9) as f64) * PI / 4.0 + (rng.f() - 0.5) * 2.0 * rmax; }
   if rng.below(6) == 0 { lat = trans_lat() * if rng.coin() { 1.0 } else { -1.0 } + (rng.f() - 0.5) * 2.0 * rmax; }
   // edges crossing lon = 0 (and the other seam meridians) inside a polar cap: the branch of the exact mode's special-point search (R21)
-  if rng.below(6) == 0 { lon = (if rng.coin() { 0.0 } else { rng.below(4) as f64 * PI / 2.0 }) + (rng.f() - 0.5) * 2.0 * rmax; let lo = trans_lat() + 0.01; let hi = PI / 2.0 - 0.03 - rmax; if hi <= lo { return None; } lat = (lo + (hi - lo) * rng.f()) * if rng.coin() { 1.0 } else { -1.0 }; }
+  if rng.below(6) == 0 { // fine cells (R >= 8 cells) make a misplaced special point visible as a far cell
+    let fine: Vec<u8> = cands.iter().cloned().filter(|&d| rmax * nside(d) as f64 >= 8.0).collect(); if !fine.is_empty() && rng.below(4) != 0 { depth = *rng.pick(&fine); }
+    lon = (if rng.coin() { 0.0 } else { rng.below(4) as f64 * PI / 2.0 }) + (rng.f() - 0.5) * 2.0 * rmax; let lo = trans_lat() + 0.01; let hi = PI / 2.0 - 0.03 - rmax; if hi <= lo { return None; } lat = (lo + (hi - lo) * rng.f()) * if rng.coin() { 1.0 } else { -1.0 }; }
   lon = lon.rem_euclid(TWO_PI);
   if lat.abs() + rmax > PI / 2.0 - 0.02 { return None; }
   let nv = 3 + rng.below(7) as usize;
@@ -46,7 +48,7 @@ pub fn gen_poly(rng: &mut Rng) -> Option<Case> {
 fn run(ctx: &mut Ctx, extra: &mut BTreeMap<String, String>) {
   let seed = ctx.seed;
   let small = ctx.pass != "release";
-  let n = if ctx.thorough { if small { 4000 } else { 1_000_000 } } else if small { 400 } else { 320_000 };
+  let n = if ctx.thorough { if small { 4000 } else { 4_000_000 } } else if small { 400 } else { 320_000 };
   extra.insert("polygons".into(), format!("{}", n));
   run_sharded(ctx, 16, |c, k| {
     let mut rng = Rng::new(seed, 1200 + k as u64);
